@@ -18,6 +18,7 @@ struct FeCfg {
     double wlen = 0.025625, upperf = 6855.4976, lowerf = 133.33334;
     std::string transform = "legacy";
     bool remove_noise = true, remove_dc = false, logspec = false, smoothspec = false, round_filters = true, unit_area = true, doublebw = false, big_endian = false;
+    std::string warp_type, warp_params;
     double alpha = 0.97;
     int S() const { return (int)(wlen * samprate + 0.5); }
     int H() const { return (int)((double)samprate / frate + 0.5); }
@@ -45,6 +46,8 @@ static FeCfg cfg_from(const Json &j)
     c.doublebw = j.getb("doublebw", false);
     c.big_endian = j.getb("big_endian", false);
     c.alpha = j.getd("alpha", 0.97);
+    c.warp_type = j.gets("warp_type", "");
+    c.warp_params = j.gets("warp_params", "");
     return c;
 }
 
@@ -70,6 +73,10 @@ static Json cfg_json(const FeCfg &c)
     j.set("doublebw", c.doublebw);
     j.set("big_endian", c.big_endian);
     j.set("alpha", c.alpha);
+    if (!c.warp_type.empty()) {
+        j.set("warp_type", c.warp_type);
+        j.set("warp_params", c.warp_params);
+    }
     return j;
 }
 
@@ -96,6 +103,11 @@ static fe_t *make_fe(const FeCfg &c)
     config_set_bool(cf, "dither", 0);
     config_set_str(cf, "input_endian", c.big_endian ? "big" : "little");
     config_set_float(cf, "alpha", c.alpha);
+    if (!c.warp_type.empty()) { // vocal-tract-length warping of the filterbank
+        config_set_str(cf, "warp_type", c.warp_type.c_str());
+        if (!c.warp_params.empty())
+            config_set_str(cf, "warp_params", c.warp_params.c_str());
+    }
     fe_t *fe = fe_init(cf);
     config_free(cf);
     return fe;
@@ -209,6 +221,13 @@ struct FeWorld : World {
         c.unit_area = r.chance(0.8);
         c.doublebw = r.chance(0.1);
         c.big_endian = r.chance(0.15);
+        if (r.chance(0.2)) {
+            static const std::vector<std::pair<std::string, std::string>> warps = { { "inverse_linear", "1.2" }, { "inverse_linear", "0.85" }, { "affine", "1.05 30" }, { "affine", "0.9 -40" },
+                                                                                       { "piecewise_linear", "1.1 2500" }, { "piecewise_linear", "0.92 0" }, { "inverse_linear", "" } };
+            auto &w = warps[r.below(warps.size())];
+            c.warp_type = w.first;
+            c.warp_params = w.second;
+        }
         c.alpha = r.chance(0.12) ? 0.0 : (r.chance(0.1) ? 0.5 : 0.97); // 0: the frame is copied without pre-emphasis (another code path)
         plan.set("cfg", cfg_json(c));
         plan.set("rebuffer", (long long)r.below(3)); // 0 never, 1 always, 2 randomly per call
